@@ -306,3 +306,35 @@ func SolveFirstBlock(h, aad, ct, target []byte) []byte {
 	inv := load(Inv(hm.bytes()))
 	return mul(rest.xor(load(target)), inv).bytes()
 }
+
+// SealParallel computes what Seal computes, with the counter-mode pass and the GHASH pass split over `workers` goroutines (the
+// block cipher must be safe for concurrent use). For megabyte inputs in checks that need many reference results.
+func SealParallel(c Block, iv, plaintext, aad []byte, tagSize, workers int) []byte {
+	if workers < 2 || len(plaintext) < 64*workers {
+		return Seal(c, iv, plaintext, aad, tagSize)
+	}
+	j0 := J0(c, iv)
+	ct := make([]byte, len(plaintext), len(plaintext)+tagSize)
+	nblk := (len(plaintext) + 15) / 16
+	per := (nblk + workers - 1) / workers
+	done := make(chan struct{}, workers)
+	for w := 0; w < workers; w++ {
+		go func(w int) {
+			defer func() { done <- struct{}{} }()
+			var ks [16]byte
+			for b := w * per; b < (w+1)*per && b < nblk; b++ {
+				c.Encrypt(ks[:], CounterBlock(j0, uint32(b+1)))
+				for i := 16 * b; i < 16*b+16 && i < len(plaintext); i++ {
+					ct[i] = plaintext[i] ^ ks[i-16*b]
+				}
+			}
+		}(w)
+	}
+	for w := 0; w < workers; w++ {
+		<-done
+	}
+	g := NewGHashStream(HashKey(c))
+	g.Blocks(aad)
+	g.BlocksParallel(ct, workers)
+	return append(ct, GCTR(c, j0, g.Sum(len(aad), len(ct)))[:tagSize]...)
+}
